@@ -28,12 +28,12 @@ RULE = ('seeded generator over {estimator x precision class (none/one/per-fold) 
 ASSUMPTIONS = ['fold-balanced designs only (every condition equally often in every fold)',
                'SPD precisions, condition number <= 1e2', 'poisson_cv: non-negative data',
                'tolerance rtol 1e-9 / atol 1e-10']
-REQUIRED = ['check:cv_vs_reference', 'check:every_fold_contributes', 'check:fold_offset_cancels',
+REQUIRED = ['check:same_objects_twice', 'check:cv_vs_reference', 'check:every_fold_contributes', 'check:fold_offset_cancels',
             'check:inv_row_order', 'check:inv_fold_relabel', 'check:inv_channel_perm',
             'check:default_folds']
 REACH = ['calc_rdm_crossnobis', 'calc_rdm_poisson_cv', '_gen_default_cv_descriptor',
          'Dataset.sort_by', '_calc_rdm_crossnobis_single']
-FAIL_KEYS = ['method', 'prec', 'folds', 'remove_mean']
+FAIL_KEYS = ['method', 'prec', 'folds', 'remove_mean', 'what']
 TIME_BUDGET = {'quick': 60, 'thorough': 600}
 RT, AT = 1e-9, 1e-10
 
@@ -172,6 +172,46 @@ def run_case(ctx, case):
     if not good:
         return
     base_pairs = as_pairs(base)
+
+    # (0) the same dataset object and the same precision object(s) handed in twice: the second result equals the
+    # first and neither the data nor the precisions were altered (call() above hands over fresh copies every time)
+    od = {'cond': gen.wrap([case['clabs'][c] for c in case['cond']], case['container']),
+          'fold': gen.wrap([case['flabs'][f] for f in case['fold']], case['container'])}
+    ds_same = Dataset(np.array(case['meas']), obs_descriptors=od)
+    kw = dict(method=case['method'], descriptor='cond', cv_descriptor='fold')
+    noise_obj = None
+    if case['method'] == 'crossnobis':
+        kw['remove_mean'] = case['remove_mean']
+        if case['prec'] is not None:
+            noise_obj = case['prec'].copy()
+        elif case['precs'] is not None:
+            keys = sorted(set(case['flabs'][f] for f in case['fold']))
+            noise_obj = [case['precs'][k].copy() for k in keys]
+            if rng.integers(2):
+                noise_obj = np.array(noise_obj)
+        if noise_obj is not None:
+            kw['noise'] = noise_obj
+    else:
+        kw.update(prior_lambda=case['prior_lambda'], prior_weight=case['prior_weight'])
+    noise_before = None if noise_obj is None else [np.array(x, copy=True) for x in
+                                                   (noise_obj if not isinstance(noise_obj, np.ndarray) or noise_obj.ndim == 3
+                                                    else [noise_obj])]
+    meas_before = np.array(ds_same.measurements, copy=True)
+    ok1, first = ctx.guarded('same_objects_twice', sig, calc_rdm, ds_same, data=lambda: witness(case), **kw)
+    ok2, second = ctx.guarded('same_objects_twice', sig, calc_rdm, ds_same, data=lambda: witness(case), **kw)
+    if ok1 and ok2:
+        ctx.case('same_objects_twice', sig)
+        noise_after = None if noise_obj is None else [np.asarray(x) for x in
+                                                      (noise_obj if not isinstance(noise_obj, np.ndarray) or noise_obj.ndim == 3
+                                                       else [noise_obj])]
+        if not np.array_equal(np.asarray(ds_same.measurements), meas_before):
+            ctx.fail('same_objects_twice', dict(sig, what='data_modified'), 'calc_rdm altered the dataset it was given',
+                     witness(case))
+        elif noise_before is not None and not all(np.array_equal(a, b) for a, b in zip(noise_before, noise_after)):
+            ctx.fail('same_objects_twice', dict(sig, what='noise_modified'), 'calc_rdm altered the precision matrices it '
+                     'was given', witness(case))
+        elif not pairs_equal(ctx, 'same_objects_twice', sig, second, want, case, what='second call on the same objects'):
+            pass
 
     if case['n_ch'] == 1 and case['remove_mean']:
         ctx.count('skipped_all_zero')  # one channel with its mean removed: everything is 0
